@@ -192,4 +192,21 @@ CLAIMED = {
                      "exported cases replayed into four implementations",
         "design_ref": "DESIGN.md section 4 (C18)",
     },
+    "C13": {
+        "text": "Registration.tla computes exact integer circular cross-correlations on a family of small "
+                "images and checks Recovers (estimate = applied shift for EVERY shift of the periodic "
+                "cell, principal cell, +-N/2 identified), ZeroOnIdentical, SwapNegates and Aligns on odd, "
+                "even and non-square shapes; a sign-flipped estimator is rejected. Every exported "
+                "(reference, moving, shift) triple is run through the NumPy and torch estimators for "
+                "upsampling factors 1..64, real/Fourier inputs and outputs (aligned image = reference), "
+                "max_shift, identical and swapped images: integer shifts must come back exactly. Band-"
+                "limited sub-pixel cases (rational shifts) on larger shapes must come back within "
+                "1/upsample_factor.",
+        "note": "Trusted: TLC arithmetic; the harness's synthesis of band-limited images; float64 "
+                "tolerance 1e-6 px (torch 1e-5). Unique-peak images only; torch tolerance 0.5 px for "
+                "upsample <= 2 (its half-pixel stage).",
+        "technique": "TLA+ exact-arithmetic oracle checked by TLC over the whole periodic cell; exported "
+                     "cases replayed into both estimators",
+        "design_ref": "DESIGN.md section 4 (C13)",
+    },
 }
